@@ -220,6 +220,21 @@ def gen_plan(prop, r, tier, run):
                     r.shuffle(ex)
                 if r.chance(0.3) and len(ex) > 2:
                     ex = ex[:r.randint(2, len(ex))]
+                elif r.chance(0.35):
+                    # same strings, same total, repeats moved to other
+                    # strings
+                    cnt = collections.OrderedDict()
+                    for x in ex:
+                        cnt[x] = cnt.get(x, 0) + 1
+                    keys = list(cnt)
+                    freqs = list(cnt.values())
+                    if len(set(freqs)) == 1 and len(keys) > 1:
+                        ex = ex + [keys[0]]
+                        cnt[keys[0]] += 1
+                        freqs = list(cnt.values())
+                    r.shuffle(freqs)
+                    ex = [k for k, f in zip(keys, freqs) for _ in range(f)]
+                    r.shuffle(ex)
                 op['examples'] = ex
                 op['info'] = src.get('info', {})
                 if op['form'] == 'dict':
@@ -266,14 +281,38 @@ def gen_c14(r, clients):
         return v
 
     ops.append(variant('first'))
+    if r.chance(0.5):
+        # the second history starts in a fresh process: the first call must
+        # not have primed whatever state the prefix is supposed to create
+        ops.append({'op': 'fresh_process', 'client': 'A'})
     # prefix by other callers
     for _ in range(r.weighted([(1, 0), (4, 1), (3, 2), (2, 4)])):
         if r.chance(0.35):
             ops.append({'op': 'perturb', 'client': r.pick(clients),
                         'n': r.randint(1, 7)})
         else:
-            ops.append(gen_extract(r, 'C03', r.pick(clients), max_n=20,
-                                   force_small=r.chance(0.5)))
+            po = gen_extract(r, 'C03', r.pick(clients), max_n=20,
+                             force_small=r.chance(0.5))
+            if r.chance(0.5):
+                # another caller works on the same strings with other
+                # options (dialect, tagging, ...): shared caches only matter
+                # when the strings overlap
+                ex = [s for s in tgt['examples']]
+                if r.chance(0.5):
+                    r.shuffle(ex)
+                po['examples'] = ex
+                po['info'] = tgt.get('info', {})
+                if po['form'] == 'dict':
+                    po['form'] = 'list'
+                    po.pop('freqs', None)
+                if po['form'] == 'series':
+                    po['examples'] = [s.replace('\x00', '\x01')
+                                      if s is not None else s for s in ex]
+                if po['opts'].get('dialect', 'd') == tgt['opts'].get(
+                        'dialect', 'd'):
+                    po['opts']['dialect'] = r.pick(['perl', 'portable',
+                                                    'grep'])
+            ops.append(po)
     ops.append(variant('after_prefix'))
     if r.chance(0.7):
         ops.append(variant('again'))
@@ -471,6 +510,13 @@ def execute(plan):
                 ctx.events.append({'i': op['i'], 'op': 'perturb'})
                 ctx.shape.append('P')
                 ctx.nontrivial = True
+            elif op['op'] == 'fresh_process':
+                from sim import stateguard
+                stateguard.restore()
+                rexpy.memo.clear()
+                random.seed(plan['config']['random0'])
+                ctx.events.append({'i': op['i'], 'op': 'fresh_process'})
+                ctx.shape.append('F')
             elif op['op'] == 'extract':
                 run_extract_op(ctx, op)
         if len(clients_seen) > 1:
